@@ -162,6 +162,17 @@ fn run<const N: usize>(sc: &Scenario, out: &mut Outcome) {
         let (mut mods, mut rems) = x.diff(y);
         mods.sort();
         rems.sort();
+        for (k, t) in &rems {
+            if y.get(k).is_some() {
+                out.violate(
+                    "C05/diff-lists-live-key-as-removal",
+                    format!("{tag}: key {k} is listed as a removal at {} although the peer has it live at {:?}", fmt_ts(*t), y.get(k).map(|t| fmt_ts(*t))),
+                );
+            }
+            if mods.iter().any(|(mk, _)| mk == k) {
+                out.violate("C05/diff-lists-key-twice", format!("{tag}: key {k} is listed both as a modification and as a removal"));
+            }
+        }
         let (wm, wr) = model_diff(x, y);
         if mods != wm {
             out.violate(
@@ -270,7 +281,7 @@ impl Check for C05 {
         vec![
             "the replica's purge cut-off is observed through will_apply on keys it does not hold, not through private fields".into(),
             "the repair clause is checked only for un-purged states (the statement ties it to C03's condition)".into(),
-            "timestamps lie at least two hours after the datacake epoch".into(),
+            "timestamps lie at least one second after the datacake epoch (one case in twenty inside the first hour after it)".into(),
         ]
     }
     fn components(&self) -> Vec<(&'static str, &'static str)> {
